@@ -193,9 +193,41 @@ bool sameRegion(const Paths64& a, const Paths64& b, bool rect) {
 
 Verdict judgeImpl(const Case& c, bool geo, bool gp) {
   Verdict v;
-  const Paths64& subj = c.P("subj");
-  const Paths64& clip = c.P("clip");
-  const Paths64& open = c.P("open");
+  // route (chosen per case): -1 Clipper64; p >= 0 ClipperD with precision p.  ClipperD works on the input multiplied by its
+  // internal scale (the smallest power of two above 10^p), so the case is judged in that scaled grid: the judged input
+  // is the generated input times the scale, ClipperD receives the generated input, its output is multiplied back.
+  int dprec = (int)c.I("dprec", -1);
+  double dsc = 1;
+  if (dprec >= 0) {
+    dsc = 2; while (dsc <= std::pow(10.0, dprec)) dsc *= 2;
+    int64_t m0 = std::max(O::maxAbs(c.P("subj")), std::max(O::maxAbs(c.P("clip")), O::maxAbs(c.P("open"))));
+    if ((double)m0 * dsc > 1e15) { dprec = -1; dsc = 1; }
+  }
+  auto scaled = [&](const Paths64& pp) { Paths64 r = pp; for (auto& p : r) for (auto& q : p) { q.x *= (int64_t)dsc; q.y *= (int64_t)dsc; } return r; };
+  const Paths64 subjS = scaled(c.P("subj")), clipS = scaled(c.P("clip")), openS = scaled(c.P("open"));
+  const Paths64& subj = dprec >= 0 ? subjS : c.P("subj");
+  const Paths64& clip = dprec >= 0 ? clipS : c.P("clip");
+  const Paths64& open = dprec >= 0 ? openS : c.P("open");
+  if (dprec >= 0) ST.count("route_ClipperD_precision_" + std::to_string(dprec));
+  auto fromD = [&](const PathsD& pp) { Paths64 r; for (auto& p : pp) { Path64 q; for (auto& pt : p) q.emplace_back((int64_t)std::llround(pt.x * dsc), (int64_t)std::llround(pt.y * dsc)); r.push_back(q); } return r; };
+  // executes one configuration through the chosen route; closedOnly selects the overload without an open-paths argument
+  auto solve = [&](ClipType ct, FillRule fr, bool pc, bool rev, bool closedOnly, Paths64& sol, Paths64& solOpen) {
+    if (dprec < 0) {
+      Clipper64 cl;
+      cl.PreserveCollinear(pc); cl.ReverseSolution(rev);
+      cl.AddSubject(subj); cl.AddClip(clip);
+      if (!open.empty()) cl.AddOpenSubject(open);
+      return closedOnly ? cl.Execute(ct, fr, sol) : cl.Execute(ct, fr, sol, solOpen);
+    }
+    ClipperD cl(dprec);
+    cl.PreserveCollinear(pc); cl.ReverseSolution(rev);
+    cl.AddSubject(TransformPaths<double, int64_t>(c.P("subj"))); cl.AddClip(TransformPaths<double, int64_t>(c.P("clip")));
+    if (!open.empty()) cl.AddOpenSubject(TransformPaths<double, int64_t>(c.P("open")));
+    PathsD s, so;
+    bool ok = closedOnly ? cl.Execute(ct, fr, s) : cl.Execute(ct, fr, s, so);
+    sol = fromD(s); solOpen = fromD(so);
+    return ok;
+  };
   Paths64 all = subj;
   all.insert(all.end(), clip.begin(), clip.end());
   Paths64 allWithOpen = all;
@@ -227,14 +259,8 @@ Verdict judgeImpl(const Case& c, bool geo, bool gp) {
     for (FillRule fr : FRS)
       for (int pc = 0; pc < 2; ++pc)
         for (int rev = 0; rev < 2; ++rev) {
-          Clipper64 cl;
-          cl.PreserveCollinear(pc != 0);
-          cl.ReverseSolution(rev != 0);
-          cl.AddSubject(subj);
-          cl.AddClip(clip);
-          if (!open.empty()) cl.AddOpenSubject(open);
           Paths64 sol, solOpen;
-          bool ok = cl.Execute(ct, fr, sol, solOpen);
+          bool ok = solve(ct, fr, pc != 0, rev != 0, false, sol, solOpen);
           v.evals++;
           std::string why;
           if (!ok) { v.fail("Execute returned false" + cfgStr(ct, fr, pc, rev)); return v; }
@@ -245,11 +271,8 @@ Verdict judgeImpl(const Case& c, bool geo, bool gp) {
           for (auto& p : sol) maxVerts = std::max(maxVerts, p.size());
           if (!open.empty()) {
             // the overloads that return closed paths only, with open subjects loaded: same structural clauses
-            Clipper64 c3;
-            c3.PreserveCollinear(pc != 0); c3.ReverseSolution(rev != 0);
-            c3.AddSubject(subj); c3.AddClip(clip); c3.AddOpenSubject(open);
-            Paths64 sol3;
-            if (!c3.Execute(ct, fr, sol3)) { v.fail("Execute(closed only) returned false" + cfgStr(ct, fr, pc, rev)); return v; }
+            Paths64 sol3, none;
+            if (!solve(ct, fr, pc != 0, rev != 0, true, sol3, none)) { v.fail("Execute(closed only) returned false" + cfgStr(ct, fr, pc, rev)); return v; }
             if (!structural(sol3, allWithOpen, why, !gp, &knownE)) { v.fail("Execute(ct, fr, closed) with open subjects loaded: " + why + cfgStr(ct, fr, pc, rev)); return v; }
             v.evals++;
           }
@@ -290,6 +313,7 @@ Case genDeg() {
   c.p["clip"] = GEN::degPaths(4, 12, M, pool);
   if (G::chance(25)) c.p["open"] = GEN::degPaths(2, 6, M, pool);
   ST.count("magclass_" + std::to_string(cls));
+  if (G::chance(20)) c.i["dprec"] = G::range(0, 3);
   return c;
 }
 Case genGp() {
@@ -298,6 +322,7 @@ Case genGp() {
   Case c;
   c.p["subj"] = g.subj;
   c.p["clip"] = g.clip;
+  if (G::chance(20)) c.i["dprec"] = G::range(0, 3);
   return c;
 }
 Case genRect() {
@@ -308,6 +333,7 @@ Case genRect() {
   Case c;
   c.p["subj"] = GEN::rectPaths(L, 1, 3);
   c.p["clip"] = GEN::rectPaths(L, 0, 3);
+  if (G::chance(20)) c.i["dprec"] = G::range(0, 3);
   return c;
 }
 
